@@ -23,6 +23,8 @@ structure Obs where
   data : Bool
   /-- how many TunnelOpenAck packets were written to the requester (the first one is `ack`) -/
   acks : Nat
+  /-- the mapping of the bridge that holds the requester as source or target ("" when no bridge does) -/
+  on : String
 deriving DecidableEq, Repr
 
 /-- The mapping the addressed tunnel belongs to: the bridge's / the route's mapping; a tunnel that does not
@@ -70,21 +72,38 @@ def holds (w : World) (id : ConnIdent) (req : Req) (ts : TunnelState) (o : Obs) 
 
 /-- What the model predicts the observer sees: traffic from the other end reaches the requester exactly when
 it became the target of a bridge that was still waiting, or was piped to the node holding the bridge. -/
-def Outcome.obs (o : Outcome) (ts : TunnelState) : Obs :=
-  { ack := o.ack, att := o.attach, acks := if o.ack == .none then 0 else 1,
-    data := match o.attach, ts with
-      | .target, .bridge _ served => !served
-      | .forward _, _ => true
-      | _, _ => false }
+def obsData (att : Attach) (ts : TunnelState) : Bool :=
+  match att, ts with
+  | .target, .bridge _ served => !served
+  | .forward _, _ => true
+  | _, _ => false
 
-/-- The tunnel a connection ends up on: a request that found nothing at arrival and is attached as target /
-forwarded (or receives bytes) later joined the tunnel that appeared meanwhile; a source creates its own. -/
-def attachedTs (ts : TunnelState) (late : Late) (att : Attach) : TunnelState :=
-  match ts, late with
-  | .none, .route m n _ => if att == .source then ts else .remote m n
-  | .none, .window m => if att == .source then ts else .bridge m false
-  | .none, .early m => if att == .source then ts else .bridge m false
-  | _, _ => ts
+/-- the mapping of the bridge that holds the connection: the bridge found at arrival, or the one a source has just
+created for the mapping it named -/
+def obsOn (att : Attach) (req : Req) (ts : TunnelState) : String :=
+  match att, ts with
+  | .source, .bridge m _ => m
+  | .source, _ => req.MappingID
+  | .target, .bridge m _ => m
+  | _, _ => ""
+
+def Outcome.obs (o : Outcome) (req : Req) (ts : TunnelState) : Obs :=
+  { ack := o.ack, att := o.attach, acks := if o.ack == .none then 0 else 1,
+    data := obsData o.attach ts, on := obsOn o.attach req ts }
+
+/-- The tunnel a connection ends up on.  A connection that a bridge holds as source or target is on THAT bridge's
+tunnel, whatever the request expected (`on` = the mapping the holding bridge serves, as observed); a forwarded one,
+or one that merely receives bytes, joined the tunnel that appeared while it waited. -/
+def attachedTs (ts : TunnelState) (late : Late) (att : Attach) (on : String) : TunnelState :=
+  match att with
+  | .source => .bridge on false
+  | .target => .bridge on false
+  | _ =>
+    match ts, late with
+    | .none, .route m n _ => .remote m n
+    | .none, .window m => .bridge m false
+    | .none, .early m => .bridge m false
+    | _, _ => ts
 
 /-- The property when the tunnel state changes during the request: the acknowledgement is judged against the
 state at arrival (`holds`); whatever the connection is attached to, or receives bytes from, afterwards must be a
@@ -92,19 +111,32 @@ tunnel of a mapping it is entitled to.  (A request entitled at arrival may be ac
 because the tunnel that appeared belongs to another mapping: it is never attached and gets no traffic.) -/
 def holdsDyn (w : World) (id : ConnIdent) (req : Req) (ts : TunnelState) (late : Late) (o : Obs) : Bool :=
   holds w id req ts o &&
-  ((o.att == .none && !o.data) || entitledB w id req (attachedTs ts late o.att))
+  ((o.att == .none && !o.data) || entitledB w id req (attachedTs ts late o.att o.on))
 
 /-- Observation predicted for a request with a late-appearing tunnel: bytes of the late bridge's source reach a
 connection attached to it as target. -/
-def Outcome.obsDyn (o : Outcome) (ts : TunnelState) (late : Late) : Obs :=
+def dynData (att : Attach) (ts : TunnelState) (late : Late) : Bool :=
+  match att, ts, late with
+  | .target, .bridge _ served, _ => !served
+  | .target, .none, .route _ _ _ => true
+  | .target, .none, .window _ => true
+  | .target, .none, .early _ => true
+  | .forward _, _, _ => true
+  | _, _, _ => false
+
+def dynOn (att : Attach) (req : Req) (ts : TunnelState) (late : Late) : String :=
+  match att, ts, late with
+  | .source, .bridge m _, _ => m
+  | .source, _, _ => req.MappingID
+  | .target, .bridge m _, _ => m
+  | .target, .none, .route m _ _ => m
+  | .target, .none, .window m => m
+  | .target, .none, .early m => m
+  | _, _, _ => ""
+
+def Outcome.obsDyn (o : Outcome) (req : Req) (ts : TunnelState) (late : Late) : Obs :=
   { ack := o.ack, att := o.attach, acks := if o.ack == .none then 0 else 1,
-    data := match o.attach, ts, late with
-      | .target, .bridge _ served, _ => !served
-      | .target, .none, .route _ _ _ => true
-      | .target, .none, .window _ => true
-      | .target, .none, .early _ => true
-      | .forward _, _, _ => true
-      | _, _, _ => false }
+    data := dynData o.attach ts late, on := dynOn o.attach req ts late }
 
 /-- The property on the observation of "the mapping was revoked (the revocation returned), whatever other
 updates of the record were in flight; afterwards somebody presents credentials for a tunnel of that mapping":
